@@ -618,12 +618,12 @@ func methodsBatch(cases []Case) []string {
 // ---------------------------------------------------------------- imports, SourceDir, LocateInPackage on package DAGs
 
 type dagCase struct {
-	N     int     `json:"n"`                 // packages d0 … d(n-1); d0 is the module root package when Root
-	Edges [][]int `json:"edges"`             // Edges[i] = indices (> i) imported by package i
-	Roots []int   `json:"roots"`             // load patterns, in this order
-	Std   bool    `json:"std"`               // package 0 also imports fmt and strings
+	N     int     `json:"n"`                  // packages d0 … d(n-1); d0 is the module root package when Root
+	Edges [][]int `json:"edges"`              // Edges[i] = indices (> i) imported by package i
+	Roots []int   `json:"roots"`              // load patterns, in this order
+	Std   bool    `json:"std"`                // package 0 also imports fmt and strings
 	Dang  []int   `json:"dangling,omitempty"` // packages whose directory holds a dangling symbolic link (an editor's lock file `.#p.go`): the go tool ignores it, hashing the directory fails
-	Dir   int     `json:"linedir,omitempty"` // a //line directive ahead of every package's declaration: 1 names a file of its own beside the source, 2 a file in the next package's directory, 3 an absolute path elsewhere
+	Dir   int     `json:"linedir,omitempty"`  // a //line directive ahead of every package's declaration: 1 names a file of its own beside the source, 2 a file in the next package's directory, 3 an absolute path elsewhere
 	out   string
 	have  bool
 }
